@@ -8,7 +8,7 @@
 (* library uses for noise below 0.2 x amplitude.                             *)
 EXTENDS Demod, TLC
 
-CONSTANT MaxFrames
+CONSTANTS MaxFrames, MaxOff
 VARIABLE c
 
 Pay(n, p) == [k \in 1..n |-> CASE p = 0 -> (k * 37 + 11) % 256 [] p = 1 -> 255 - ((k * 91) % 256) [] OTHER -> 0]
@@ -32,7 +32,8 @@ Build(items, off, gapMul, amp, lvl, pat) ==
         ELSE LET f == items[k]
                  base == Len(acc)
                  fr == ModFrame(f, amp, LAMBDA q : NoiseAt(amp, lvl, pat, base + q))
-                 glen == gapMul * (16 + 16 * Len(f))
+                 \* gapMul = 0: exactly one frame length of noise (the frame's 56 / 112 data bits), the minimum the statement allows
+                 glen == IF gapMul = 0 THEN 16 * Len(f) ELSE gapMul * (16 + 16 * Len(f))
                  gap == [q \in 1..glen |-> NoiseAt(amp, lvl, pat, base + Len(fr) + q)]
                  nx == acc \o fr \o gap
              IN  B(k + 1, nx)
@@ -44,10 +45,10 @@ Build(items, off, gapMul, amp, lvl, pat) ==
 Init == c = [ph |-> "root"]
 Next ==
   \/ /\ c.ph = "root"
-     /\ \E n \in 0..MaxFrames, amp \in {300, 700, 1400}, off \in 0..3 :
+     /\ \E n \in 0..MaxFrames, amp \in {300, 700, 1400}, off \in 0..MaxOff :
           c' = [ph |-> "cfg", n |-> n, amp |-> amp, off |-> off]
   \/ /\ c.ph = "cfg"
-     /\ \E ks \in [1..c.n -> Kinds], p \in 0..1, gapMul \in 1..2, nz \in {<<0, 0>>, <<190, 1>>, <<190, 2>>, <<310, 2>>, <<300, 1>>} :
+     /\ \E ks \in [1..c.n -> Kinds], p \in 0..1, gapMul \in 0..2, nz \in {<<0, 0>>, <<190, 1>>, <<190, 2>>, <<310, 2>>, <<300, 1>>} :
           c' = [ph |-> "case", items |-> [k \in 1..c.n |-> FrameOf(ks[k], (p + k) % 3)],
                 good |-> [k \in 1..c.n |-> Good(ks[k])],
                 amp |-> c.amp, off |-> c.off, gapMul |-> gapMul, lvl |-> nz[1], pat |-> nz[2]]
